@@ -249,7 +249,7 @@ impl Engine for C01 {
                     if hard_w {
                         res.stats.probe("hard_write_fault_fired");
                         if let Outcome::Ok(g) = &golden {
-                            if !g.starts_with(&accepted) {
+                            if !is_prefix_modulo_local_id(&accepted, g, wants_local_styles(&scn.doc.0, &scn.cfg)) {
                                 res.violation(
                                     "stream/accepted-bytes-not-a-prefix",
                                     "c01:write-not-prefix",
@@ -266,7 +266,7 @@ impl Engine for C01 {
                     }
                     if !hard_r && !hard_w {
                         // only transparent faults fired: result must be identical to the fault-free run
-                        if faulty != golden {
+                        if !same_outcome_modulo_local_id(&faulty, &golden, wants_local_styles(&scn.doc.0, &scn.cfg)) {
                             res.violation(
                                 "stream/transparent-fault-visible",
                                 "c01:transparent-fault-visible",
